@@ -49,7 +49,7 @@ pub fn split(s: &str) -> Option<Parts> {
 }
 
 pub const SCHEMES: [&str; 4] = ["http", "https", "ipp", "ipps"];
-pub const USERINFOS: [Option<&str>; 6] = [None, Some("u"), Some("u:p"), Some(":p"), Some("u%40x:p%3A"), Some("a.b:c%2Fd")];
+pub const USERINFOS: [Option<&str>; 7] = [None, Some("u"), Some("u:p"), Some(":p"), Some("u%40x:p%3A"), Some("a.b:c%2Fd"), Some("joe@example.com:s3cret")];
 pub const HOSTS: [&str; 8] = [
     "h",
     "printer.example.com",
@@ -129,7 +129,7 @@ mod tests {
 
     #[test]
     fn split_roundtrip_on_product() {
-        assert_eq!(total(), 47040);
+        assert_eq!(total(), 54880);
         for i in 0..total() {
             let c = case(i);
             let p = split(&c.text).unwrap();
